@@ -4,6 +4,8 @@ CONSTANTS
   Ctxs = {"top", "mixin", "fn"}
   CondSet = {}
   MaxConds = 0
+  ElseSet = {}
+  NCondSet = {}
   AVals <- Range12
   BVals <- Range12
   TVals <- Range12
